@@ -187,18 +187,18 @@ CHECKS["C15"] = dict(
     technique=_T + "; bounded native history comparison")
 
 CHECKS["C12"] = dict(
-    category="exploration",
-    text="The real candidates_from_bank_code and from_bank_code are executed symbolically (pyvc) on registry groups / "
-         "candidate lists of bounded size (<= 3 quick, <= 4 thorough) with SYMBOLIC BIC texts and primary flags and "
-         "proved to implement: candidates = non-empty BICs, primary first, order kept; choice = an 8-character candidate "
-         "if any, else one with branch XXX, else the first; no candidate -> InvalidBankCode. The bundled registry is "
-         "evaluated exhaustively: all 22,753 keys, 7,769 BICs, unlisted pairs, IBAN-side accessors, build_index == "
-         "grouping spec, invertibility.",
-    design_ref="DESIGN.md C12",
-    note="Bounded in the group size (the abstract-list proof with loop invariants of the design is not built); "
-         "exhaustive for the data this tree bundles. sorted() assumed stable.",
-    technique="contract-based verification of the real lookup bodies on bounded-size symbolic groups (pyvc, z3) + "
-              "exhaustive evaluation of the lookup contract on the bundled registry")
+    category="proof",
+    text="from_bank_code: the real body is executed on an ABSTRACT candidate list (any length, any valid BICs; pyvc "
+         "abstract lists) and proved to return a member - an 8-character one if any, else one with branch XXX, else the "
+         "first - and to raise InvalidBankCode exactly for the empty list. candidates_from_bank_code (non-empty BICs, "
+         "primary first, order kept) is proved on symbolic groups of BOUNDED size (<= 3 quick / 4 thorough). The bundled "
+         "registry is evaluated exhaustively: all 22,753 keys, 7,769 BICs, unlisted pairs, IBAN-side accessors, "
+         "build_index == grouping spec, invertibility.",
+    design_ref="DESIGN.md C12, 0.2",
+    note="Unbounded: the selection rule. Bounded in group size: the candidate order (sorted() assumed stable). "
+         "Exhaustive on the bundled data only: build_index, invertibility, IBAN-side accessors.",
+    technique="contract-based deductive verification of the real lookup bodies (pyvc abstract lists / bounded symbolic "
+              "groups, z3) + exhaustive evaluation of the lookup contract on the bundled registry")
 CHECKS["C13"] = dict(
     category="proof",
     text="Per country x registry mode x pinned subset (698 variants): the real BBAN.random is executed with the caller's "
